@@ -62,8 +62,8 @@ type c10Site struct {
 // c10Layout builds a sequence: lead + site + gap + site + ... + trail.
 func c10Layout(e c10Enz, circular bool) (seq string, sites []c10Site) {
 	n := vChoice(vTier(3, 4))
-	if circular && vTier(0, 1) == 1 && e.skip < 10 {
-		n = vChoice(4)
+	if circular && vTier(0, 1) == 1 && e.skip >= 10 {
+		n = vChoice(3)
 	}
 	minGap := 2*e.skip + 2*e.oh // cuts of a facing pair at least two overhangs apart, windows disjoint
 	lead := 0
